@@ -94,6 +94,27 @@ TABLE = {
              "every grid index with all coordinates different; closed forms name the side that is wrong.",
         note="observation term unsupported for separable networks; boundary terms d<=2",
         ref="DESIGN.md §4 C11"),
+    "C12": dict(
+        technique="runtime differential monitor: batched evaluation vs Python loop of unbatched real evaluations, plus numpy formulas",
+        level="exploration",
+        text="Losses (ODE, stationary, non-stationary, 2-unknown systems) are evaluated on batches built with the real "
+             "append_param_batch for every non-empty subset of three equation parameters (one read by the network "
+             "input transform, one by the equation, one only passed through) and compared term by term with the mean "
+             "over rows of the unbatched real loss and with numpy formulas; gradients w.r.t. unbatched keys and the "
+             "network likewise; heterogeneity maps (none/one/all/missing/None entries) are checked on the equation "
+             "value and on the other terms staying unchanged; the caller's parameters are compared before/after.",
+        note="(B,1) parameter batches; boundary/observation/normalisation inputs have B rows; non-stationary normalisation pairs time i with row i",
+        ref="DESIGN.md §4 C12"),
+    "C13": dict(
+        technique="runtime oracle monitor: system loss vs numpy dynamic-term formula and per-unknown single-loss formulas; 1x1 vs plain loss",
+        level="exploration",
+        text="SystemLossODE / SystemLossPDE with 1..3 equations x 1..3 unknowns, arbitrary key names, scalar / dict / "
+             "default weights, per-unknown initial, boundary, normalisation and observation parts (hand-built and from "
+             "the real multi-network loader) are compared term by term with the weighted composition; harness-written "
+             "equations weight time 7x more than space so the argument order shows in the value; 1x1 systems are "
+             "compared with the real plain loss.",
+        note="documented weight forms must be accepted; equations use the first output of each network",
+        ref="DESIGN.md §4 C13"),
     "C14": dict(
         technique="runtime structural monitor: factors recovered from each batch must rebuild it and lie in the stores",
         level="exploration",
